@@ -3,6 +3,8 @@ pub mod c01;
 pub mod c03;
 pub mod c04;
 pub mod c06;
+pub mod c07;
+pub mod c08;
 pub mod c09;
 pub mod c10;
 pub mod c11;
@@ -14,5 +16,5 @@ pub mod repair;
 use crate::runner::Prop;
 
 pub fn all() -> Vec<&'static dyn Prop> {
-    vec![&c01::C01, &c03::C03, &c04::C04, &repair::C02, &repair::C05, &c06::C06, &c09::C09, &c10::C10, &c11::C11, &c12::C12, &c13::C13, &c14::C14]
+    vec![&c01::C01, &c03::C03, &c04::C04, &repair::C02, &repair::C05, &c06::C06, &c07::C07, &c08::C08, &c09::C09, &c10::C10, &c11::C11, &c12::C12, &c13::C13, &c14::C14]
 }
